@@ -118,9 +118,14 @@ def digest_archive(path: pathlib.Path):
 def library_answer(t, o, scratch: pathlib.Path):
     import eko
 
-    path = pathlib.Path(tempfile.mkdtemp(prefix="ref-", dir=scratch)) / "ref.tar"
-    eko.solve(t, o, path)
-    return digest_archive(path)
+    d = pathlib.Path(tempfile.mkdtemp(prefix="ref-", dir=scratch))
+    old = tempfile.tempdir
+    tempfile.tempdir = str(d)      # the library's own temporary directories land in the scratch space
+    try:
+        eko.solve(t, o, d / "ref.tar")
+        return digest_archive(d / "ref.tar")
+    finally:
+        tempfile.tempdir = old
 
 
 def example_reference():
@@ -202,6 +207,7 @@ def run_sequence(args):
     """Execute one command sequence in a fresh cwd; returns the step records."""
     sid, init, cmds, tiny, ref, scratch, (ex_t, ex_o) = args
     root = pathlib.Path(tempfile.mkdtemp(prefix=f"cwd-{sid}-", dir=scratch))
+    tmpd = pathlib.Path(tempfile.mkdtemp(prefix=f"tmp-{sid}-", dir=scratch))
     steps = []
     try:
         setup(root, init, tiny)
@@ -210,7 +216,9 @@ def run_sequence(args):
             raise MachineryError(f"initial state not realised: {got} != {init}")
         for cmd in cmds:
             pre = project(root)
-            p = subprocess.run([EKO_BIN] + argv(cmd), cwd=str(root), env=env(), capture_output=True, text=True, timeout=900)
+            e = env()
+            e["TMPDIR"] = str(tmpd)
+            p = subprocess.run([EKO_BIN] + argv(cmd), cwd=str(root), env=e, capture_output=True, text=True, timeout=900)
             post = project(root)
             st = {"seq": sid, "cmd": cmd, "pre": pre, "post": post, "exit": "ok" if p.returncode == 0 else "fail",
                   "rc": p.returncode, "cardsEq": "na", "ops": "na", "msg": ""}
@@ -237,4 +245,5 @@ def run_sequence(args):
             steps.append(st)
     finally:
         shutil.rmtree(root, ignore_errors=True)
+        shutil.rmtree(tmpd, ignore_errors=True)
     return steps
